@@ -79,6 +79,9 @@ func c09L1(c *vlib.Ctx) {
 	for i := 0; i < n; i++ {
 		r := vlib.Derive(c.Seed, "C09L1", i)
 		tol := vlib.Pick(r, []time.Duration{time.Second, 30 * time.Second, 5 * time.Minute})
+		if i%970 == 1 {
+			tol = 5 * time.Minute
+		}
 		clock := vlib.NewVClock(c08T0)
 		auth := ingress.NewHMACAuth([][]byte{[]byte("k1")})
 		auth.Tolerance = tol
@@ -114,6 +117,11 @@ func c09L1(c *vlib.Ctx) {
 		others := vlib.Pick(r, []int{0, 0, 3, 50, 1000})
 		if i%97 == 0 {
 			others = 5000
+		}
+		if i%970 == 1 {
+			// cache occupancy: thousands of other live nonces between original and replay
+			// (every insertion sweeps the whole cache, so this case is quadratic: one per 970)
+			others = 12000
 		}
 		for _, at := range instants {
 			if at < clock.NowNS() {
